@@ -472,6 +472,44 @@ fn main() {
             check_pattern(t, p, &names);
         });
     }
+    // modifier words overlapping their own beginnings: every text of one or two units from the
+    // modifier words, their proper prefixes and the single letters they share ('prc', 'alpl',
+    // 'alpre', 'betalpha', ...) behind a number, with and without a digit after it - a scanner that
+    // gives up on 'pre' after 'pr' must still see the 'rc' that starts at the 'r'
+    {
+        const UNITS: [&str; 17] = ["a", "l", "p", "r", "c", "e", "al", "alp", "alph", "pr", "be", "bet", "rc", "pl", "pre", "alpha", "beta"];
+        let mut tails: Vec<String> = UNITS.iter().map(|u| u.to_string()).collect();
+        for a in UNITS {
+            for b in UNITS {
+                tails.push(format!("{}{}", a, b));
+            }
+        }
+        tails.sort();
+        tails.dedup();
+        let mut vers: Vec<String> = vec![];
+        for tl in &tails {
+            vers.push(format!("1.0{}", tl));
+            vers.push(format!("1.0{}1", tl));
+        }
+        vers.push("1.0".to_string());
+        vers.push("1.0.1".to_string());
+        let names: Vec<String> = vers.iter().map(|v| format!("p-{}", v)).collect();
+        // bounds: every unit alone (with and without a digit) and the plain version, four operators
+        let mut pats: Vec<String> = vec![];
+        for u in UNITS.iter().map(|u| u.to_string()).chain(["".to_string(), "prc".to_string(), "alpl".to_string(), "alpre".to_string(), "bealpha".to_string()]) {
+            for d in ["", "1"] {
+                for o in OPS.iter() {
+                    pats.push(format!("p{}1.0{}{}", o.text(), u, d));
+                }
+            }
+        }
+        run.bound(format!("modifier overlaps: {} bounds x {} versions built from one or two of 17 units (modifier words, their prefixes, shared letters)", pats.len(), names.len()));
+        par_items(&run, "C02 modifier overlaps", &pats, |_, p, t| {
+            t.states += 1;
+            t.transitions += names.len() as u64;
+            check_pattern(t, p, &names);
+        });
+    }
     // padded numbers: small values behind 0..300 zeros (a digit run is its numeric value however
     // many digits it is written with), as a component, as a later component and as the revision,
     // in bounds and in candidates
